@@ -114,6 +114,14 @@ def duplicate_clauses(ctx):
                   'DUP', where(repo, lp), tr.qualname, stream.fmt_atoms(val) + ': original first',
                   'the original descriptor is not emitted first and untouched')
         if val.get(('EQ', 'source_')) is not True and not any(a[0] == 'EQ' and v for a, v in val.items()):
+            # no name comparison holds on this path: nothing but the original may be emitted.  (The source of duplicate() is a
+            # resource NAME: choosing it through a pattern matcher makes 'report (1)' miss itself and 'prices.2020' also pick
+            # 'prices-2020'.)
+            extra = [n for n in nodes if (isinstance(n, ast.Yield) or (isinstance(n, ast.Call) and isinstance(n.func, ast.Attribute)
+                                                                      and n.func.attr == 'append')) and n is not first_yield]
+            run.check(not extra, 'DUP', where(repo, lp), tr.qualname, stream.fmt_atoms(val) + ': copy only under name equality',
+                      'a copy is emitted for a resource that was not chosen by comparing its name with the source name for equality '
+                      '(a pattern match reads the name as a regular expression: it can miss the resource itself and pick others)')
             continue
         # the copy: what is emitted (yielded / deferred) after the original on the matching path
         emitted = [n for n in nodes if isinstance(n, ast.Yield) or
